@@ -50,10 +50,10 @@ structure TXHyp : Prop where
   cor : ∀ s, (P.rx s .corrupt).1 = s
   aAtn : ∀ s, A s → A (P.rx s (.frame (atnPdu c))).1
   aReq : ∀ s, A s → B (P.rx s (.frame req)).1 ∧ (P.rx s (.frame req)).2 = r1
-  bReq : ∀ s, B s → (P.rx s (.frame req)).1 = s ∧ ((P.rx s (.frame req)).2 = r1 ∨ (P.rx s (.frame req)).2 = none)
-  bNak : ∀ s, B s → (P.rx s (.frame (.dep fNAK pni c.idid c.inad []))).1 = s ∧
+  bReq : ∀ s, B s → B (P.rx s (.frame req)).1 ∧ ((P.rx s (.frame req)).2 = r1 ∨ (P.rx s (.frame req)).2 = none)
+  bNak : ∀ s, B s → B (P.rx s (.frame (.dep fNAK pni c.idid c.inad []))).1 ∧
     ((P.rx s (.frame (.dep fNAK pni c.idid c.inad []))).2 = r1 ∨ (P.rx s (.frame (.dep fNAK pni c.idid c.inad []))).2 = none)
-  bAtn : ∀ s, B s → (P.rx s (.frame (atnPdu c))).1 = s
+  bAtn : ∀ s, B s → B (P.rx s (.frame (atnPdu c))).1
 
 variable {P c A B r1 pni req}
 
@@ -99,8 +99,8 @@ theorem reqRetrans_phase (H : TXHyp P c A B r1 pni req) (ch : Bool) : ∀ n (a :
           ∀ res, (xfer P a (.dep fNAK pni c.idid c.inad [])).2 = .ok res → r1 = some res := by
         rcases hp with hp | hp
         · rw [hp.1]; exact ⟨h, fun res hr => absurd hr (hp.2.1 res)⟩
-        · rw [hp.1, hb.1]
-          refine ⟨h, fun res hr => ?_⟩
+        · rw [hp.1]
+          refine ⟨hb.1, fun res hr => ?_⟩
           have := hp.2.1 res hr
           rcases hb.2 with h2 | h2
           · rw [← h2]; exact this
@@ -166,8 +166,8 @@ theorem sendDepLoop_tx (H : TXHyp P c A B r1 pni req) : ∀ fuel (a : Air σ), (
           have hb := H.bReq a.peer h
           rcases hp with hp | hp
           · rw [hp.1]; exact ⟨h, fun res hr => absurd hr (hp.2.1 res)⟩
-          · rw [hp.1, hb.1]
-            refine ⟨h, fun res hr => ?_⟩
+          · rw [hp.1]
+            refine ⟨hb.1, fun res hr => ?_⟩
             have := hp.2.1 res hr
             rcases hb.2 with h2 | h2
             · rw [← h2]; exact this
@@ -191,7 +191,7 @@ theorem sendDepLoop_tx (H : TXHyp P c A B r1 pni req) : ∀ fuel (a : Air σ), (
           have ha : A (reqAttention P c 2 a1).1.peer ∨ B (reqAttention P c 2 a1).1.peer := by
             rcases hAB with h' | h'
             · exact Or.inl (reqAttention_phase A H.cor H.aAtn 2 a1 h')
-            · exact Or.inr (reqAttention_phase B H.cor (fun s hs => by rw [H.bAtn s hs]; exact hs) 2 a1 h')
+            · exact Or.inr (reqAttention_phase B H.cor H.bAtn 2 a1 h')
           generalize reqAttention P c 2 a1 = r2 at ha ⊢
           obtain ⟨a2, u⟩ := r2
           cases u with
